@@ -208,6 +208,8 @@ impl RainDbIterator for FilesEntryIterator {
                     "There was an error skipping forward. Original error: {}",
                     error
                 );
+                #[cfg(feature = "verif_hooks")]
+                crate::verif::bump(crate::verif::Counter::IterErrorSwallowed);
                 return None;
             }
         }
@@ -230,6 +232,8 @@ impl RainDbIterator for FilesEntryIterator {
                     "There was an error skipping backward. Original error: {}",
                     error
                 );
+                #[cfg(feature = "verif_hooks")]
+                crate::verif::bump(crate::verif::Counter::IterErrorSwallowed);
                 return None;
             }
         }
